@@ -33,6 +33,15 @@ CLAIMED = {
  "C07": dict(cat="other", tech="formula conformance of auc() against a reference term (value numbering with rate stubs) + exact evaluation of the fully inlined closed form on order-type representatives against Mann-Whitney / step area",
    text="auc() equals, as a term, the reference construction (sorted float neighbours of all scores, own rates on both axes, joint reversal, closed window via searchsorted sides and clamps, flat extension, |trapezoid(y,x)|) for 4 axis pairs; on representatives (ties, easy samples, 4 configurations, 5 windows) the derived closed form equals the Mann-Whitney statistic and the exact step area (bounded).",
    ref="DESIGN §4 C07"),
+ "C13": dict(cat="other", tech="formula conformance: specialisation of utils.bootstrap_ci per method, value numbering with shape bookkeeping dropped and masked gather/scatter lifted, named-axis role inference for the quantile branch",
+   text="The derived level terms of quantile/bc/bca equal the documented formulas in normal form (alpha/2 and 1-alpha/2 over the replicate axis; z0 from #{theta<=theta_hat}/#{not NaN}; 2 z0 + z_alpha; acceleration nansum(d^3)/(6 nansum(d^2)^1.5) with 0 fallback; adjusted level where z0 finite; per-component nanquantile over axis 0) and the quantile branch delivers axes metric+alpha+(lower,upper). Ordering/nesting corollaries are not separately decided.",
+   ref="DESIGN §4 C13"),
+ "C19": dict(cat="proof", tech="constant folding of the two enums; symbolic exploration of FraudScores.__init__/from_labels (state on every path, raise-condition set); override scan of the class body",
+   text="Translations are mutually inverse on all members and values; every normal constructor path leaves exactly the Scores state of the claimed view and the raise conditions are exactly the two out-of-[0,1] tests; no query method is overridden, so every query is Scores' code on that state; from_labels splits by ==/!= genuine_label and forwards all parameters.",
+   ref="DESIGN §4 C19"),
+ "C20": dict(cat="other", tech="closed-form reduction of the scipy.stats.norm calls to the standard normal with inverse-pair identities; polynomial identities for the joint Bernoulli table; count terms of the non-random branches",
+   text="fnr/threshold_at_fnr and fpr/threshold_at_fpr compose to the identity in both orders, roc() rates are the model's rates at its thresholds, from_metrics reproduces the requested operating point and sizes, sample() sizes sum to n with the model's direction, non-random Bernoulli draws floor(n p) ones, the joint table sums to 1 with marginals p1, p2 under the decoding, equals the documented a, raises exactly on a negative entry and uses floor counts with the remainder in the last cell. Random branches are not decided.",
+   ref="DESIGN §4 C20"),
 }
 PENDING = "check not built yet (build phase in progress)"
 checks, na = [], []
